@@ -366,6 +366,11 @@ func (w *mediaWorld) fire(ev *mediaEvent) {
 		c.Count("feedback.nack", int64(len(seqs)))
 	case "limit":
 		on := ev.A == 1
+		if !on {
+			// the request is withdrawn: nothing is demanded from the moment
+			// the call starts (it contains scheduling points)
+			rs.limitSince = 0
+		}
 		rs.down.VerifReplaceTracks([]*rtpconn.VerifUpTrack{w.upt}, on)
 		if on {
 			if rs.limitSince == 0 {
